@@ -497,6 +497,15 @@ func (d *V1) put(cmd *Cmd) (o Outcome) {
 
 func (d *V1) get(cmd *Cmd) (o Outcome) {
 	in := &dynamodb.GetItemInput{TableName: aws.String(cmd.T), Key: itemToV1(fullKey(cmd))}
+	if pe, names := projection(cmd); pe != "" {
+		in.ProjectionExpression = aws.String(pe)
+		if names != nil {
+			in.ExpressionAttributeNames = map[string]*string{}
+			for k, v := range names {
+				in.ExpressionAttributeNames[k] = aws.String(v)
+			}
+		}
+	}
 	d.keepIn(cmd.ID, "Key", in.Key)
 	out, err := d.cl.GetItem(in)
 	d.classify(err, &o)
